@@ -63,6 +63,9 @@ func (m *ModuleInstance) closeModuleOnCanceledOrTimeout(ctx context.Context, can
 			case errors.Is(ctx.Err(), context.DeadlineExceeded):
 				// TODO: figure out how to report error here.
 				_ = m.closeWithExitCodeWithoutClosingResource(sys.ExitCodeDeadlineExceeded)
+			case ctx.Err() != nil:
+				// A context of another type may be done with an error of its own: it is done all the same.
+				_ = m.closeWithExitCodeWithoutClosingResource(sys.ExitCodeContextCanceled)
 			}
 		}
 	case <-cancelChan:
@@ -72,7 +75,8 @@ func (m *ModuleInstance) closeModuleOnCanceledOrTimeout(ctx context.Context, can
 // CloseWithCtxErr closes the module with an exit code based on the type of
 // error reported by the context.
 //
-// If the context's error is unknown or nil, the module does not close.
+// If the context's error is nil, the module does not close. Any error other
+// than context.DeadlineExceeded closes it like a cancellation.
 func (m *ModuleInstance) CloseWithCtxErr(ctx context.Context) {
 	switch {
 	case errors.Is(ctx.Err(), context.Canceled):
@@ -81,6 +85,9 @@ func (m *ModuleInstance) CloseWithCtxErr(ctx context.Context) {
 	case errors.Is(ctx.Err(), context.DeadlineExceeded):
 		// TODO: figure out how to report error here.
 		_ = m.CloseWithExitCode(ctx, sys.ExitCodeDeadlineExceeded)
+	case ctx.Err() != nil:
+		// A context of another type may be done with an error of its own: it is done all the same.
+		_ = m.CloseWithExitCode(ctx, sys.ExitCodeContextCanceled)
 	}
 }
 
